@@ -8,7 +8,9 @@ import (
 	"encoding/json"
 	"fmt"
 	"math/big"
+	"os"
 	"sort"
+	"strings"
 	"time"
 
 	abci "github.com/cometbft/cometbft/abci/types"
@@ -81,6 +83,9 @@ type RunResult struct {
 }
 
 const ampleGas = 30_000_000
+
+// debugFail (env VERIF_DEBUG_FAIL=<substring of op kind>) prints rejected transactions of that kind.
+var debugFail = os.Getenv("VERIF_DEBUG_FAIL")
 
 // Run executes one simulated run. It must be called inside a synctest bubble so that the
 // host clock is the simulator's.
@@ -411,7 +416,13 @@ func (w *World) buildTx(tp *TxPlan) ([]byte, error) {
 	if err := txb.SetSignatures(sig); err != nil {
 		return nil, err
 	}
-	return txc.TxEncoder()(txb.GetTx())
+	bz, err := txc.TxEncoder()(txb.GetTx())
+	if err == nil && debugFail != "" {
+		if _, derr := txc.TxDecoder()(bz); derr != nil {
+			fmt.Printf("DEBUG-DECODE %s: %v\n", txKind(tp), derr)
+		}
+	}
+	return bz, err
 }
 
 func splitPhases(events []abci.Event) (begin, end []abci.Event) {
@@ -592,6 +603,9 @@ func (w *World) reportExecError(err error, bp *BlockPlan, txs []*TxPlan) {
 func (w *World) noteTx(tr *TxRecord) {
 	w.TxTotal++
 	kind := txKind(tr.Plan)
+	if debugFail != "" && tr.Code != 0 && strings.Contains(kind, debugFail) {
+		fmt.Printf("DEBUG-FAIL h=%d %s code=%s/%d gas=%d/%d log=%s args=%s\n", tr.Height, kind, tr.Codespace, tr.Code, tr.GasUsed, tr.GasWanted, tr.Log, tr.Plan.Ops[0].Args)
+	}
 	cls := "ok"
 	switch {
 	case tr.Code == 0:
@@ -655,8 +669,11 @@ func (w *World) generate(rng *Rand) {
 	}
 	mainEnd := w.Height + int64(w.Cfg.Blocks)
 	weights := make([]int, len(w.Mods))
-	for i := range w.Mods {
-		weights[i] = 1
+	for i, m := range w.Mods {
+		weights[i] = 10
+		if wm, ok := m.(interface{ Weight() int }); ok {
+			weights[i] = wm.Weight()
+		}
 	}
 	for w.Height < mainEnd {
 		next := w.Height + 1
